@@ -230,7 +230,7 @@ package varlink
 
 // ---- per-connection loop (C01 C02 C10 C14)
 
-//@ ghost gNewConn int
+//@ ghost gHandlerErr iface
 
 //@ func (*Service).handleConnection$1 {C10 C14 C15 | safety: C10}
 //@   requires [nn] *s != nil && *wg != nil && !held[*s]
@@ -240,8 +240,9 @@ package varlink
 
 //@ func (*Service).handleConnection {C01 C02 C10 C14 C15 | safety: C10}
 //@   requires [nn] s != nil && conn != nil && wg != nil && dispatchersNonNil(s) && !held[s]
-//@   modifies s.conncounter, held, wgDones, closed, gNewConn, dlRpast, dlRzero, dlRctx, helper, gDlFail, gCancelled, gCtxErr, sockOff, bufLo, bufHi, gRdCalls, gSends, gSentVal, gSentErr, wcount, wlastErr, wlastCont, wlastParams, dcount, dlastIface, dlastMethod, dlastResult, gm, gDecErr, gMethod, gOneway
-//@   ghostset at call(NewConn)#1 : gNewConn = gNewConn + 1
+//@   modifies s.conncounter, held, wgDones, closed, gNewConn, gHandlerErr, dlRpast, dlRzero, dlRctx, helper, gDlFail, gCancelled, gCtxErr, sockOff, bufLo, bufHi, gRdCalls, gSends, gSentVal, gSentErr, wcount, wlastErr, wlastCont, wlastParams, dcount, dlastIface, dlastMethod, dlastResult, gm, gDecErr, gMethod, gOneway
+//@   ghostset at call(NewConn)#1 : gHandlerErr = nil
+//@   ghostset at call(HandleMessage)#1 : gHandlerErr = res0
 //@   ensures [onereader C02] gNewConn == old(gNewConn) + 1
 //@   ensures [closed C10 C14] closed[conn]
 //@   ensures [released C10 C14 C15] s.conncounter == old(s.conncounter) - 1 && wgDones[wg] == old(wgDones)[wg] + 1 && !held[s]
@@ -249,6 +250,7 @@ package varlink
 //@   assert [reader C02] at call(ReadBytes)#1 : arg0 == ctxConn && arg2 == 0
 //@   assert [close C10] at call(Close)#1 : arg0 == conn
 //@   loop 1 invariant [reader C02] cstruct(ctxConn) && ctxConn.conn == conn && gNewConn == old(gNewConn) + 1 && !held[s]
+//@   loop 1 invariant [stop-on-error C01 C10] gHandlerErr == nil
 //@   loop 1 decreases *
 
 // ---- addresses (C19) and socket activation (C20)
@@ -300,7 +302,7 @@ package varlink
 //@   ensures [running C14] s.running == old(s.running)
 
 //@ func NewConnection {C19 | safety: C19}
-//@   modifies bufLo, bufHi
+//@   modifies bufLo, bufHi, gNewConn
 //@   ensures [nocolon C19] colon(address) < 0 ==> result1 != nil && result0 == nil
 //@   ensures [ok C19] result1 == nil ==> result0 != nil && result0.conn != nil
 //@   assert [fields C19] at call(DialContext)#1 : colon(address) >= 0 && arg2 == protoOf(address) && arg3 == pathOf(address)
@@ -637,7 +639,7 @@ package varlink
 //@   assert [same C17] at call(SetWriteDeadline)#1 : arg0 == p.writer && arg1 == t
 
 //@ func NewBridgeWithStderr {C03 | safety: C11}
-//@   modifies gOut, gIn, anyfield(exec.Cmd.Stderr), bufLo, bufHi
+//@   modifies gOut, gIn, anyfield(exec.Cmd.Stderr), bufLo, bufHi, gNewConn
 //@   ghostset at call(StdoutPipe)#1 : gOut = res0
 //@   ghostset at call(StdinPipe)#1 : gIn = res0
 //@   assert [wiring C03] at call(NewConn)#1 : unbox(PipeCon, arg0).reader == gOut && unbox(PipeCon, arg0).writer == gIn && unbox(PipeCon, arg0).cmd == cmd
